@@ -11,6 +11,14 @@ import sys
 import time
 
 REPO = '/repo'
+# while other agents are running checks against /repo, test seeds on a scratch worktree
+SCRATCH = os.environ.get('SEED_SCRATCH', '/tmp/seedrepo')
+if SCRATCH:
+    if not os.path.isdir(SCRATCH):
+        subprocess.run(f'git -C /repo worktree add -q --detach {SCRATCH} HEAD', shell=True)
+    else:
+        subprocess.run(f'git -C {SCRATCH} checkout -q --detach $(git -C /repo rev-parse HEAD)', shell=True)
+    REPO = SCRATCH
 VERIF = os.path.dirname(os.path.dirname(os.path.abspath(__file__)))
 
 
@@ -34,7 +42,7 @@ def main():
         print('repo not clean:', out)
         return 2
     res = dict(patch=os.path.join(d, 'patch.diff'), checks={})
-    env = dict(os.environ, PYTHONPATH=REPO, PYTHONDONTWRITEBYTECODE='1')
+    env = dict(os.environ, PYTHONPATH=REPO, PYTHONDONTWRITEBYTECODE='1', DD_REPO=REPO)
     demo = os.path.join(d, 'demo.py')
     rc0, out0 = sh(f'/venv/bin/python {demo}', cwd=d, env=env)
     res['demo_clean_rc'] = rc0
@@ -44,14 +52,15 @@ def main():
         return 2
     try:
         rc, out = sh('/venv/bin/python -m pytest -q -p no:cacheprovider --timeout=900 '
-                     '--continue-on-collection-errors 2>&1 | tail -1', cwd=REPO)
+                     '--continue-on-collection-errors 2>&1 | tail -1', cwd=REPO,
+                     env=dict(os.environ, PYTHONPATH=REPO))
         res['tests_tail'] = out.strip()
         rc1, out1 = sh(f'/venv/bin/python {demo}', cwd=d, env=env)
         res['demo_patched_rc'] = rc1
         for c in checks:
             t = time.time()
             rc, out = sh(f'/venv/bin/python harness/vcheck.py {c} --tier quick', cwd=VERIF,
-                         env=dict(os.environ, VERIF_SEED=os.environ.get('VERIF_SEED', '0')))
+                         env=dict(os.environ, VERIF_SEED=os.environ.get('VERIF_SEED', '0'), DD_REPO=REPO))
             viol = [ln for ln in out.split('\n') if ln.startswith('VIOLATION')]
             res['checks'][c] = dict(exit=rc, violations=viol[:3], wall=round(time.time() - t, 1),
                                     tail=out.strip().split('\n')[-1][:300])
